@@ -132,3 +132,16 @@ Inductive renders : list docspan -> list yev -> Prop :=
 | RendersDoc d ds body evs :
     content_of (d_coll d) body -> renders ds evs ->
     renders (d :: ds) (YDocStart :: body ++ YDocEnd (d_end d) (d_pulled d) :: evs).
+
+(* ---------- has_document (chunker.rs): the guard of the in-memory UTF-8 path ----------
+   yaml.rs hands an in-memory UTF-8 stream to serde_yaml only if it holds a
+   document; the guard runs the parser up to the first DOCUMENT-START and
+   answers true for an error too (so that the consumer surfaces it).  On the
+   event list: *)
+Fixpoint has_document (evs : list yev) : bool :=
+  match evs with
+  | [] => false
+  | YStreamEnd :: _ => false
+  | YDocStart :: _ | YErr :: _ => true
+  | _ :: r => has_document r
+  end.
